@@ -1,7 +1,8 @@
 import FeatherModel.Model.RemapSpec
+import FeatherModel.Lemmas.RemapDesc
 
 /-!
-# Lemmas for C07: the traversal of `remap.rs` acts on the independent traversal `refs*` as `codeApply`, pointwise
+# Lemmas for C07: the traversal of `remap.rs` acts on the independent traversal `refs*` as `applyRef`, pointwise
 -/
 
 namespace RemapTree
@@ -65,13 +66,13 @@ variable (r : Remapper) (o : JStr)
 
 mutual
   theorem annotation_ok : ∀ a : Annotation,
-      (remapAnnotation r a).map refsAnnotation = omapM (codeApply r o) (refsAnnotation a)
+      (remapAnnotation r a).map refsAnnotation = omapM (applyRef r o) (refsAnnotation a)
     | .mk t ps => by
       have ih := pairs_ok ps
-      simp only [refsAnnotation, omapM_cons, ← ih, remapAnnotation, codeApply, applyRef]
+      simp only [refsAnnotation, omapM_cons, ← ih, remapAnnotation, applyRef]
       cases r.mapDesc t <;> cases remapPairs r ps <;> simp [refsAnnotation]
   theorem pairs_ok : ∀ ps : List Pair,
-      (remapPairs r ps).map refsPairs = omapM (codeApply r o) (refsPairs ps)
+      (remapPairs r ps).map refsPairs = omapM (applyRef r o) (refsPairs ps)
     | [] => rfl
     | p :: ps => by
       have ih1 := pair_ok p
@@ -79,19 +80,30 @@ mutual
       simp only [refsPairs, omapM_append, ← ih1, ← ih2, remapPairs]
       cases remapPair r p <;> cases remapPairs r ps <;> simp [refsPairs]
   theorem pair_ok : ∀ p : Pair,
-      (remapPair r p).map refsPair = omapM (codeApply r o) (refsPair p)
+      (remapPair r p).map refsPair = omapM (applyRef r o) (refsPair p)
     | .mk n v => by
       have ih := elementValue_ok v
       simp only [refsPair, ← ih, remapPair]
       cases remapElementValue r v <;> simp [refsPair]
   theorem elementValue_ok : ∀ v : ElementValue,
-      (remapElementValue r v).map refsElementValue = omapM (codeApply r o) (refsElementValue v)
+      (remapElementValue r v).map refsElementValue = omapM (applyRef r o) (refsElementValue v)
     | .object _ => rfl
     | .enum t c => by
-      simp only [refsElementValue, omapM_singleton, remapElementValue, codeApply]
-      cases r.mapDesc t <;> simp [refsElementValue]
+      simp only [refsElementValue, omapM_singleton, remapElementValue, applyRef, classOfDesc_eq, mapEnumConstName,
+        fieldNameOk, validFieldName]
+      cases h1 : objectClassOf t with
+      | none => cases r.mapDesc t <;> simp [refsElementValue]
+      | some k =>
+        by_cases h2 : Descriptor.validUnqualified c = true
+        · simp only [h2, ↓reduceIte]
+          cases h3 : r.mapField k c t with
+          | none => cases r.mapDesc t <;> simp
+          | some p => cases r.mapDesc t <;> simp [refsElementValue]
+        · simp only [Bool.not_eq_true] at h2
+          simp only [h2, Bool.false_eq_true, ↓reduceIte]
+          cases r.mapDesc t <;> simp [refsElementValue]
     | .cls d => by
-      simp only [refsElementValue, omapM_singleton, remapElementValue, codeApply, applyRef]
+      simp only [refsElementValue, omapM_singleton, remapElementValue, applyRef]
       cases r.mapDesc d <;> simp [refsElementValue]
     | .ann a => by
       have ih := annotation_ok a
@@ -102,7 +114,7 @@ mutual
       simp only [refsElementValue, ← ih, remapElementValue]
       cases remapElementValues r vs <;> simp [refsElementValue]
   theorem elementValues_ok : ∀ vs : List ElementValue,
-      (remapElementValues r vs).map refsElementValues = omapM (codeApply r o) (refsElementValues vs)
+      (remapElementValues r vs).map refsElementValues = omapM (applyRef r o) (refsElementValues vs)
     | [] => rfl
     | v :: vs => by
       have ih1 := elementValue_ok v
@@ -113,45 +125,45 @@ end
 
 
 theorem typeAnnotation_ok (t : TypeAnnotation) :
-    (remapTypeAnnotation r t).map refsTypeAnnotation = omapM (codeApply r o) (refsTypeAnnotation t) := by
+    (remapTypeAnnotation r t).map refsTypeAnnotation = omapM (applyRef r o) (refsTypeAnnotation t) := by
   simp only [refsTypeAnnotation, ← annotation_ok r o, remapTypeAnnotation]
   cases remapAnnotation r t.annotation <;> simp [refsTypeAnnotation]
 
 theorem handle_ok (h : Handle) :
-    (remapHandle r h).map refsHandle = omapM (codeApply r o) (refsHandle h) := by
+    (remapHandle r h).map refsHandle = omapM (applyRef r o) (refsHandle h) := by
   cases h with
   | field k f =>
-    simp only [refsHandle, omapM_singleton, remapHandle, codeApply, applyRef]
+    simp only [refsHandle, omapM_singleton, remapHandle, applyRef]
     cases mapFieldRef r f <;> simp [refsHandle]
   | method k m =>
-    simp only [refsHandle, omapM_singleton, remapHandle, codeApply, applyRef]
+    simp only [refsHandle, omapM_singleton, remapHandle, applyRef]
     cases mapMethodRef r m <;> simp [refsHandle]
 
 mutual
   theorem loadable_ok : ∀ l : Loadable,
-      (remapLoadable r l).map refsLoadable = omapM (codeApply r o) (refsLoadable l)
+      (remapLoadable r l).map refsLoadable = omapM (applyRef r o) (refsLoadable l)
     | .const _ => rfl
     | .cls n => by
-      simp only [refsLoadable, omapM_singleton, remapLoadable, codeApply, applyRef]
+      simp only [refsLoadable, omapM_singleton, remapLoadable, applyRef]
       cases mapClassAny r n <;> simp [refsLoadable]
     | .handle h => by
       simp only [refsLoadable, ← handle_ok r o, remapLoadable]
       cases remapHandle r h <;> simp [refsLoadable]
     | .methodType d => by
-      simp only [refsLoadable, omapM_singleton, remapLoadable, codeApply, applyRef]
+      simp only [refsLoadable, omapM_singleton, remapLoadable, applyRef]
       cases r.mapDesc d <;> simp [refsLoadable]
     | .dynamic c => by
       have ih := constDyn_ok c
       simp only [refsLoadable, ← ih, remapLoadable]
       cases remapConstDyn r c <;> simp [refsLoadable]
   theorem constDyn_ok : ∀ c : ConstDyn,
-      (remapConstDyn r c).map refsConstDyn = omapM (codeApply r o) (refsConstDyn c)
+      (remapConstDyn r c).map refsConstDyn = omapM (applyRef r o) (refsConstDyn c)
     | .mk n d h args => by
       have ih := loadables_ok args
-      simp only [refsConstDyn, omapM_cons, omapM_append, ← handle_ok r o, ← ih, remapConstDyn, codeApply, applyRef]
+      simp only [refsConstDyn, omapM_cons, omapM_append, ← handle_ok r o, ← ih, remapConstDyn, applyRef]
       cases r.mapDesc d <;> cases remapHandle r h <;> cases remapLoadables r args <;> simp [refsConstDyn]
   theorem loadables_ok : ∀ ls : List Loadable,
-      (remapLoadables r ls).map refsLoadables = omapM (codeApply r o) (refsLoadables ls)
+      (remapLoadables r ls).map refsLoadables = omapM (applyRef r o) (refsLoadables ls)
     | [] => rfl
     | l :: ls => by
       have ih1 := loadable_ok l
@@ -161,19 +173,19 @@ mutual
 end
 
 theorem vtype_ok (v : VType) :
-    (remapVType r v).map refsVType = omapM (codeApply r o) (refsVType v) := by
+    (remapVType r v).map refsVType = omapM (applyRef r o) (refsVType v) := by
   cases v with
   | plain _ => rfl
   | object n =>
-    simp only [refsVType, omapM_singleton, remapVType, codeApply, applyRef]
+    simp only [refsVType, omapM_singleton, remapVType, applyRef]
     cases mapClassAny r n <;> simp [refsVType]
 
 theorem vtypes_ok (vs : List VType) :
-    (omapM (remapVType r) vs).map (·.flatMap refsVType) = omapM (codeApply r o) (vs.flatMap refsVType) :=
+    (omapM (remapVType r) vs).map (·.flatMap refsVType) = omapM (applyRef r o) (vs.flatMap refsVType) :=
   flatMap_ok _ _ _ vs (fun v _ => vtype_ok r o v)
 
 theorem frame_ok (f : Frame) :
-    (remapFrame r f).map refsFrame = omapM (codeApply r o) (refsFrame f) := by
+    (remapFrame r f).map refsFrame = omapM (applyRef r o) (refsFrame f) := by
   cases f with
   | plain _ => rfl
   | same1 s =>
@@ -187,92 +199,92 @@ theorem frame_ok (f : Frame) :
     cases omapM (remapVType r) ls <;> cases omapM (remapVType r) ss <;> simp [refsFrame]
 
 theorem insn_ok (i : Insn) :
-    (remapInsn r i).map refsInsn = omapM (codeApply r o) (refsInsn i) := by
+    (remapInsn r i).map refsInsn = omapM (applyRef r o) (refsInsn i) := by
   cases i with
   | plain _ => rfl
   | ldc l =>
     simp only [refsInsn, ← loadable_ok r o, remapInsn]
     cases remapLoadable r l <;> simp [refsInsn]
   | field op f =>
-    simp only [refsInsn, omapM_singleton, remapInsn, codeApply, applyRef]
+    simp only [refsInsn, omapM_singleton, remapInsn, applyRef]
     cases mapFieldRef r f <;> simp [refsInsn]
   | method op m =>
-    simp only [refsInsn, omapM_singleton, remapInsn, codeApply, applyRef]
+    simp only [refsInsn, omapM_singleton, remapInsn, applyRef]
     cases mapMethodRef r m <;> simp [refsInsn]
   | indy n d h args =>
-    simp only [refsInsn, omapM_cons, omapM_append, ← handle_ok r o, ← loadables_ok r o, remapInsn, codeApply, applyRef]
+    simp only [refsInsn, omapM_cons, omapM_append, ← handle_ok r o, ← loadables_ok r o, remapInsn, applyRef]
     cases r.mapDesc d <;> cases remapHandle r h <;> cases remapLoadables r args <;> simp [refsInsn]
   | cls op n =>
-    simp only [refsInsn, omapM_singleton, remapInsn, codeApply, applyRef]
+    simp only [refsInsn, omapM_singleton, remapInsn, applyRef]
     cases mapClassAny r n <;> simp [refsInsn]
 
 theorem insnEntry_ok (e : InsnEntry) :
-    (remapInsnEntry r e).map refsInsnEntry = omapM (codeApply r o) (refsInsnEntry e) := by
-  have h1 := opt_ok (codeApply r o) (remapFrame r) refsFrame e.frame (fun a _ => frame_ok r o a)
+    (remapInsnEntry r e).map refsInsnEntry = omapM (applyRef r o) (refsInsnEntry e) := by
+  have h1 := opt_ok (applyRef r o) (remapFrame r) refsFrame e.frame (fun a _ => frame_ok r o a)
   simp only [refsInsnEntry, omapM_append, ← h1, ← insn_ok r o, remapInsnEntry]
   cases ooptM (remapFrame r) e.frame <;> cases remapInsn r e.insn <;> simp [refsInsnEntry]
 
 theorem clsAny_ok (n : JStr) :
-    (mapClassAny r n).map (fun n => [Ref.clsAny n]) = omapM (codeApply r o) [Ref.clsAny n] := by
-  simp only [omapM_singleton, codeApply, applyRef]
+    (mapClassAny r n).map (fun n => [Ref.clsAny n]) = omapM (applyRef r o) [Ref.clsAny n] := by
+  simp only [omapM_singleton, applyRef]
   cases mapClassAny r n <;> simp
 
 theorem clsAnys_ok (ns : List JStr) :
-    (omapM (mapClassAny r) ns).map (·.map Ref.clsAny) = omapM (codeApply r o) (ns.map Ref.clsAny) := by
+    (omapM (mapClassAny r) ns).map (·.map Ref.clsAny) = omapM (applyRef r o) (ns.map Ref.clsAny) := by
   induction ns with
   | nil => rfl
   | cons n ns ih =>
-    simp only [List.map_cons, omapM_cons, ← ih, codeApply, applyRef]
+    simp only [List.map_cons, omapM_cons, ← ih, applyRef]
     cases mapClassAny r n <;> cases omapM (mapClassAny r) ns <;> simp
 
 theorem exc_ok (e : ExcEntry) :
-    (remapExc r e).map refsExc = omapM (codeApply r o) (refsExc e) := by
-  have h1 := opt_ok (codeApply r o) (mapClassAny r) (fun n => [Ref.clsAny n]) e.catchType (fun a _ => clsAny_ok r o a)
+    (remapExc r e).map refsExc = omapM (applyRef r o) (refsExc e) := by
+  have h1 := opt_ok (applyRef r o) (mapClassAny r) (fun n => [Ref.clsAny n]) e.catchType (fun a _ => clsAny_ok r o a)
   simp only [refsExc, ← h1, remapExc]
   cases ooptM (mapClassAny r) e.catchType <;> simp [refsExc]
 
 theorem desc_ok (d : JStr) :
-    (r.mapDesc d).map (fun d => [Ref.desc d]) = omapM (codeApply r o) [Ref.desc d] := by
-  simp only [omapM_singleton, codeApply, applyRef]
+    (r.mapDesc d).map (fun d => [Ref.desc d]) = omapM (applyRef r o) [Ref.desc d] := by
+  simp only [omapM_singleton, applyRef]
   cases r.mapDesc d <;> simp
 
 theorem lv_ok (l : Lv) :
-    (remapLv r l).map refsLv = omapM (codeApply r o) (refsLv l) := by
-  have h1 := opt_ok (codeApply r o) r.mapDesc (fun d => [Ref.desc d]) l.desc (fun a _ => desc_ok r o a)
+    (remapLv r l).map refsLv = omapM (applyRef r o) (refsLv l) := by
+  have h1 := opt_ok (applyRef r o) r.mapDesc (fun d => [Ref.desc d]) l.desc (fun a _ => desc_ok r o a)
   simp only [refsLv, ← h1, remapLv]
   cases ooptM r.mapDesc l.desc <;> simp [refsLv]
 
 
 theorem annotations_ok (as : List Annotation) :
-    (omapM (remapAnnotation r) as).map (·.flatMap refsAnnotation) = omapM (codeApply r o) (as.flatMap refsAnnotation) :=
+    (omapM (remapAnnotation r) as).map (·.flatMap refsAnnotation) = omapM (applyRef r o) (as.flatMap refsAnnotation) :=
   flatMap_ok _ _ _ as (fun a _ => annotation_ok r o a)
 
 theorem typeAnnotations_ok (ts : List TypeAnnotation) :
     (omapM (remapTypeAnnotation r) ts).map (·.flatMap refsTypeAnnotation) =
-      omapM (codeApply r o) (ts.flatMap refsTypeAnnotation) :=
+      omapM (applyRef r o) (ts.flatMap refsTypeAnnotation) :=
   flatMap_ok _ _ _ ts (fun a _ => typeAnnotation_ok r o a)
 
 theorem insnEntries_ok (es : List InsnEntry) :
-    (omapM (remapInsnEntry r) es).map (·.flatMap refsInsnEntry) = omapM (codeApply r o) (es.flatMap refsInsnEntry) :=
+    (omapM (remapInsnEntry r) es).map (·.flatMap refsInsnEntry) = omapM (applyRef r o) (es.flatMap refsInsnEntry) :=
   flatMap_ok _ _ _ es (fun a _ => insnEntry_ok r o a)
 
 theorem excs_ok (es : List ExcEntry) :
-    (omapM (remapExc r) es).map (·.flatMap refsExc) = omapM (codeApply r o) (es.flatMap refsExc) :=
+    (omapM (remapExc r) es).map (·.flatMap refsExc) = omapM (applyRef r o) (es.flatMap refsExc) :=
   flatMap_ok _ _ _ es (fun a _ => exc_ok r o a)
 
 theorem lvs_ok (ls : Option (List Lv)) :
     (ooptM (omapM (remapLv r)) ls).map (refsOpt (·.flatMap refsLv)) =
-      omapM (codeApply r o) (refsOpt (·.flatMap refsLv) ls) :=
+      omapM (applyRef r o) (refsOpt (·.flatMap refsLv) ls) :=
   opt_ok _ _ _ ls (fun a _ => flatMap_ok _ _ _ a (fun l _ => lv_ok r o l))
 
 theorem optClsAny_ok (n : Option JStr) :
     (ooptM (mapClassAny r) n).map (refsOpt fun n => [Ref.clsAny n]) =
-      omapM (codeApply r o) (refsOpt (fun n => [Ref.clsAny n]) n) :=
+      omapM (applyRef r o) (refsOpt (fun n => [Ref.clsAny n]) n) :=
   opt_ok _ _ _ n (fun a _ => clsAny_ok r o a)
 
 theorem optClsAnys_ok (ns : Option (List JStr)) :
     (ooptM (omapM (mapClassAny r)) ns).map (refsOpt (·.map Ref.clsAny)) =
-      omapM (codeApply r o) (refsOpt (·.map Ref.clsAny) ns) :=
+      omapM (applyRef r o) (refsOpt (·.map Ref.clsAny) ns) :=
   opt_ok _ _ _ ns (fun a _ => clsAnys_ok r o a)
 
 /-- one step of a `?` chain: the failing branch closes, the succeeding one stays -/
@@ -281,115 +293,141 @@ macro_rules
   | `(tactic| ostep) => `(tactic| (split; · simp [*]))
 
 theorem code_ok (c : Code) :
-    (remapCode r c).map refsCode = omapM (codeApply r o) (refsCode c) := by
+    (remapCode r c).map refsCode = omapM (applyRef r o) (refsCode c) := by
   simp only [refsCode, omapM_append, ← insnEntries_ok r o, ← excs_ok r o, ← lvs_ok r o, ← typeAnnotations_ok r o,
     remapCode]
   repeat ostep
   simp [*, refsCode]
 
 theorem optCode_ok (c : Option Code) :
-    (ooptM (remapCode r) c).map (refsOpt refsCode) = omapM (codeApply r o) (refsOpt refsCode c) :=
+    (ooptM (remapCode r) c).map (refsOpt refsCode) = omapM (applyRef r o) (refsOpt refsCode c) :=
   opt_ok _ _ _ c (fun a _ => code_ok r o a)
 
 theorem optElementValue_ok (v : Option ElementValue) :
     (ooptM (remapElementValue r) v).map (refsOpt refsElementValue) =
-      omapM (codeApply r o) (refsOpt refsElementValue v) :=
+      omapM (applyRef r o) (refsOpt refsElementValue v) :=
   opt_ok _ _ _ v (fun a _ => elementValue_ok r o a)
 
 theorem field_ok (f : Field) :
-    (remapField r o f).map refsField = omapM (codeApply r o) (refsField f) := by
+    (remapField r o f).map refsField = omapM (applyRef r o) (refsField f) := by
   simp only [refsField, omapM_cons, omapM_append, ← annotations_ok r o, ← typeAnnotations_ok r o, remapField,
-    codeApply, applyRef]
+    applyRef]
   repeat ostep
   simp [*, refsField]
 
 theorem method_ok (m : Method) :
-    (remapMethod r o m).map refsMethod = omapM (codeApply r o) (refsMethod m) := by
+    (remapMethod r o m).map refsMethod = omapM (applyRef r o) (refsMethod m) := by
   simp only [refsMethod, omapM_cons, omapM_append, ← annotations_ok r o, ← typeAnnotations_ok r o, ← optCode_ok r o,
-    ← optClsAnys_ok r o, ← optElementValue_ok r o, remapMethod, codeApply, applyRef]
+    ← optClsAnys_ok r o, ← optElementValue_ok r o, remapMethod, applyRef]
   repeat ostep
   simp [*, refsMethod]
 
 theorem fields_ok (fs : List Field) :
-    (omapM (remapField r o) fs).map (·.flatMap refsField) = omapM (codeApply r o) (fs.flatMap refsField) :=
+    (omapM (remapField r o) fs).map (·.flatMap refsField) = omapM (applyRef r o) (fs.flatMap refsField) :=
   flatMap_ok _ _ _ fs (fun a _ => field_ok r o a)
 
 theorem methods_ok (ms : List Method) :
-    (omapM (remapMethod r o) ms).map (·.flatMap refsMethod) = omapM (codeApply r o) (ms.flatMap refsMethod) :=
+    (omapM (remapMethod r o) ms).map (·.flatMap refsMethod) = omapM (applyRef r o) (ms.flatMap refsMethod) :=
   flatMap_ok _ _ _ ms (fun a _ => method_ok r o a)
 
 theorem innerClass_ok (i : InnerClass) :
-    (remapInnerClass r i).map refsInnerClass = omapM (codeApply r o) (refsInnerClass i) := by
-  simp only [refsInnerClass, omapM_cons, ← optClsAny_ok r o, remapInnerClass, codeApply, applyRef]
+    (remapInnerClass r i).map refsInnerClass = omapM (applyRef r o) (refsInnerClass i) := by
+  simp only [refsInnerClass, omapM_cons, ← optClsAny_ok r o, remapInnerClass, applyRef]
   repeat ostep
   simp [*, refsInnerClass]
 
 theorem innerClasses_ok (is : Option (List InnerClass)) :
     (ooptM (omapM (remapInnerClass r)) is).map (refsOpt (·.flatMap refsInnerClass)) =
-      omapM (codeApply r o) (refsOpt (·.flatMap refsInnerClass) is) :=
+      omapM (applyRef r o) (refsOpt (·.flatMap refsInnerClass) is) :=
   opt_ok _ _ _ is (fun a _ => flatMap_ok _ _ _ a (fun l _ => innerClass_ok r o l))
 
 theorem enclosing_ok (e : Enclosing) :
-    (remapEnclosing r e).map refsEnclosing = omapM (codeApply r o) (refsEnclosing e) := by
+    (remapEnclosing r e).map refsEnclosing = omapM (applyRef r o) (refsEnclosing e) := by
   obtain ⟨c, m⟩ := e
   cases m with
   | none =>
-    simp only [refsEnclosing, omapM_singleton, remapEnclosing, codeApply, applyRef]
+    simp only [refsEnclosing, omapM_singleton, remapEnclosing, applyRef]
     cases mapClassAny r c <;> simp [refsEnclosing]
   | some nd =>
     obtain ⟨n, d⟩ := nd
-    simp only [refsEnclosing, omapM_singleton, remapEnclosing, codeApply, applyRef]
+    simp only [refsEnclosing, omapM_singleton, remapEnclosing, applyRef]
     cases mapMethodRef r ⟨c, n, d⟩ <;> simp [refsEnclosing]
 
 theorem optEnclosing_ok (e : Option Enclosing) :
-    (ooptM (remapEnclosing r) e).map (refsOpt refsEnclosing) = omapM (codeApply r o) (refsOpt refsEnclosing e) :=
+    (ooptM (remapEnclosing r) e).map (refsOpt refsEnclosing) = omapM (applyRef r o) (refsOpt refsEnclosing e) :=
   opt_ok _ _ _ e (fun a _ => enclosing_ok r o a)
 
 
 theorem cls_ok (n : JStr) :
-    (r.mapClass n).map (fun n => [Ref.cls n]) = omapM (codeApply r o) [Ref.cls n] := by
-  simp only [omapM_singleton, codeApply, applyRef]
+    (r.mapClass n).map (fun n => [Ref.cls n]) = omapM (applyRef r o) [Ref.cls n] := by
+  simp only [omapM_singleton, applyRef]
   cases r.mapClass n <;> simp
 
 theorem optCls_ok (n : Option JStr) :
     (ooptM r.mapClass n).map (refsOpt fun n => [Ref.cls n]) =
-      omapM (codeApply r o) (refsOpt (fun n => [Ref.cls n]) n) :=
+      omapM (applyRef r o) (refsOpt (fun n => [Ref.cls n]) n) :=
   opt_ok _ _ _ n (fun a _ => cls_ok r o a)
 
 theorem clss_ok (ns : List JStr) :
-    (omapM r.mapClass ns).map (·.map Ref.cls) = omapM (codeApply r o) (ns.map Ref.cls) := by
+    (omapM r.mapClass ns).map (·.map Ref.cls) = omapM (applyRef r o) (ns.map Ref.cls) := by
   induction ns with
   | nil => rfl
   | cons n ns ih =>
-    simp only [List.map_cons, omapM_cons, ← ih, codeApply, applyRef]
+    simp only [List.map_cons, omapM_cons, ← ih, applyRef]
     cases r.mapClass n <;> cases omapM r.mapClass ns <;> simp
 
 end
 
-@[simp] theorem refsCode_strip (c : Code) : refsCode (stripCode c) = refsCode c := rfl
-@[simp] theorem refsField_strip (f : Field) : refsField (stripField f) = refsField f := rfl
-@[simp] theorem refsMethod_strip (m : Method) : refsMethod (stripMethod m) = refsMethod m := by
-  cases h : m.code <;> simp [refsMethod, stripMethod, h, refsOpt]
+theorem recordComponent_ok (r : Remapper) (o : JStr) (c : RecordComponent) :
+    (remapRecordComponent r o c).map refsRecordComponent = omapM (applyRef r o) (refsRecordComponent c) := by
+  simp only [refsRecordComponent, omapM_cons, omapM_append, ← annotations_ok r o, ← typeAnnotations_ok r o,
+    remapRecordComponent, mapRecordDecl, applyRef, fieldNameOk, validFieldName]
+  by_cases h1 : Descriptor.validUnqualified c.name = true
+  · simp only [h1, ↓reduceIte]
+    cases h2 : r.mapField o c.name c.desc with
+    | none => simp
+    | some p =>
+      simp only [Option.map_some]
+      repeat ostep
+      simp [*, refsRecordComponent]
+  · simp only [Bool.not_eq_true] at h1
+    simp only [h1, Bool.false_eq_true, ↓reduceIte]
+    cases h2 : r.mapDesc c.desc with
+    | none => simp
+    | some d =>
+      simp only [Option.map_some]
+      repeat ostep
+      simp [*, refsRecordComponent]
 
-theorem refsClass_strip (c : ClassFile) :
-    refsClass (strip c) = .cls c.name :: (refsOpt (fun n => [.cls n]) c.superClass ++ c.interfaces.map .cls ++
-      c.fields.flatMap refsField ++ c.methods.flatMap refsMethod ++
-      refsOpt (·.flatMap refsInnerClass) c.innerClasses ++ refsOpt refsEnclosing c.enclosingMethod ++
-      c.rva.flatMap refsAnnotation ++ c.ria.flatMap refsAnnotation ++
-      c.rvta.flatMap refsTypeAnnotation ++ c.rita.flatMap refsTypeAnnotation ++
-      refsOpt (fun n => [.clsAny n]) c.nestHost ++ refsOpt (·.map .clsAny) c.nestMembers ++
-      refsOpt (·.map .clsAny) c.permittedSubclasses) := by
-  simp [refsClass, strip, List.flatMap_map]
+theorem recordComponents_ok (r : Remapper) (o : JStr) (cs : List RecordComponent) :
+    (omapM (remapRecordComponent r o) cs).map (·.flatMap refsRecordComponent) =
+      omapM (applyRef r o) (cs.flatMap refsRecordComponent) :=
+  flatMap_ok _ _ _ cs (fun a _ => recordComponent_ok r o a)
 
-/-- **the traversal of `remap.rs`, exactly**: on the references of the class without what is dropped it acts as
-`codeApply`, position by position, and it fails iff one of them fails -/
+theorem moduleProvides_ok (r : Remapper) (o : JStr) (p : ModuleProvides) :
+    (remapModuleProvides r p).map refsModuleProvides = omapM (applyRef r o) (refsModuleProvides p) := by
+  simp only [refsModuleProvides, omapM_cons, ← clsAnys_ok r o, remapModuleProvides, applyRef]
+  cases mapClassAny r p.name <;> cases omapM (mapClassAny r) p.providesWith <;> simp [refsModuleProvides]
+
+theorem module_ok (r : Remapper) (o : JStr) (m : Module) :
+    (remapModule r m).map refsModule = omapM (applyRef r o) (refsModule m) := by
+  have h2 := flatMap_ok (applyRef r o) (remapModuleProvides r) refsModuleProvides m.provides
+    (fun p _ => moduleProvides_ok r o p)
+  simp only [refsModule, omapM_append, ← clsAnys_ok r o, ← h2, remapModule]
+  cases omapM (mapClassAny r) m.uses <;> cases omapM (remapModuleProvides r) m.provides <;> simp [refsModule]
+
+theorem optModule_ok (r : Remapper) (o : JStr) (m : Option Module) :
+    (ooptM (remapModule r) m).map (refsOpt refsModule) = omapM (applyRef r o) (refsOpt refsModule m) :=
+  opt_ok _ _ _ m (fun a _ => module_ok r o a)
+
+/-- **the traversal of `remap.rs`, exactly**: on the references of the class it answers what the remapper answers,
+position by position, and it fails iff one of the answers fails -/
 theorem class_ok (r : Remapper) (c : ClassFile) :
-    (remapClass r c).map refsClass = omapM (codeApply r c.name) (refsClass (strip c)) := by
-  rw [refsClass_strip]
-  simp only [omapM_cons, omapM_append, ← annotations_ok r c.name, ← typeAnnotations_ok r c.name,
+    (remapClass r c).map refsClass = omapM (applyRef r c.name) (refsClass c) := by
+  simp only [refsClass, omapM_cons, omapM_append, ← annotations_ok r c.name, ← typeAnnotations_ok r c.name,
     ← optCls_ok r c.name, ← clss_ok r c.name, ← fields_ok r c.name, ← methods_ok r c.name,
     ← innerClasses_ok r c.name, ← optEnclosing_ok r c.name, ← optClsAny_ok r c.name, ← optClsAnys_ok r c.name,
-    remapClass, codeApply, applyRef]
+    ← optModule_ok r c.name, ← recordComponents_ok r c.name, remapClass, applyRef]
   repeat ostep
   simp [*, refsClass, refsOpt]
 
